@@ -371,15 +371,19 @@ def skip_while_any_form(fx, rep, p, slf):
     v = res[0][1][1]
     window = ("call", "std::iter::Iterator::take", (iter_term(slf), lit_int(50)))
     if not (v[0] == "quant" and v[1] == "any" and v[2][0] == "call" and v[2][1] == "std::iter::Iterator::skip_while" and len(v[2][2]) == 2
-            and v[2][2][0] == window and v[2][2][1][0] in ("closure", "fnref")):
+            and v[2][2][0] in (window, ("call", "std::iter::Iterator::flatten", (window,))) and v[2][2][1][0] in ("closure", "fnref")):
         return False
+    # `take(50).flatten()`: the window still counts every line; what reaches the two predicates is the record of each Ok line (an Err
+    # line yields nothing, and it is neither a class nor a member). `flatten().take(50)` would count differently and is not this form.
+    flat = v[2][2][0] != window
     rep.fn(p)
     import models as M_
     x = ("bound", 0)
-    okx = mk_payload(x, "Ok", "0")
+    okx = x if flat else mk_payload(x, "Ok", "0")
+    is_ok = (lambda o: True) if flat else (lambda o: o(("is", x, "Ok")))
     skip = M_.closure_term(sy, v[2][2][1], 1, S.St(), {"sp": "?"})
-    p1 = pred_equals(skip, lambda o: FALSE if (o(("is", x, "Ok")) and o(("is", okx, "Class"))) else TRUE)
-    p2 = pred_equals(v[3], lambda o: TRUE if (o(("is", x, "Ok")) and (o(("is", okx, "Field")) or o(("is", okx, "Method")))) else FALSE)
+    p1 = pred_equals(skip, lambda o: FALSE if (is_ok(o) and o(("is", okx, "Class"))) else TRUE)
+    p2 = pred_equals(v[3], lambda o: TRUE if (is_ok(o) and (o(("is", okx, "Field")) or o(("is", okx, "Method")))) else FALSE)
     rep.check("C19.3", "C19.3/is_valid/per-record", p1 and p2, loc=F.short_file(b["sp"]),
               found="skip_while(not Ok(Class)): %s; any(Ok(Field|Method)): %s" % (p1, p2),
               expected="items before the first class record skipped, then a field or method record (a class record is neither)")
